@@ -463,6 +463,8 @@ def ids_e2e_src(item, level, realise, twin):
             for i in en:
                 c = COMPN[i]
                 lines.append('    println!("%s {} {}", <Aa as ArchetypeHas<%s>>::COMPONENT_ID, ecs_component_id!(%s, Aa));' % (c, c, c))
+                # the one-argument form resolves against the archetype matched by the enclosing query
+                lines.append('    ecs_iter!(world, |_x: &%s| { println!("%s-in-query {}", ecs_component_id!(%s)); });' % (c, c, c))
     lines.append("}")
     return "\n".join(lines)
 
@@ -475,6 +477,7 @@ def ids_e2e_expected(item, level):
             out.append("%s %d %d %d %s %d" % (ARCHN[i], v, v, v, ARCHN[i], v))
         else:
             out.append("%s %d %d" % (COMPN[i], v, v))
+            out.append("%s-in-query %d" % (COMPN[i], v))
     return "\n".join(out)
 
 def ids_enum(tier, seed):
